@@ -5,6 +5,7 @@ if [ -d "$s" ]; then dir=$s; elif [ -d /verif/seeded/$s ]; then dir=/verif/seede
 cd /repo || exit 2
 if [ -n "$(git status --porcelain -- include)" ]; then echo "repo include dirty; abort"; exit 2; fi
 git apply $dir/patch.diff || { echo "patch does not apply"; exit 2; }
-cd /verif; ./vcheck $prop $tier > /verif/.scratch/seedtest_$(basename $dir)_$prop.log 2>&1; rc=$?
+cd /verif; cp -f evidence/$prop.json /verif/.scratch/evidence_$prop.keep 2>/dev/null; ./vcheck $prop $tier > /verif/.scratch/seedtest_$(basename $dir)_$prop.log 2>&1; rc=$?
 git -C /repo checkout -- include
+cp -f /verif/.scratch/evidence_$prop.keep /verif/evidence/$prop.json 2>/dev/null  # the committed evidence must come from the unchanged tree
 echo "seed=$(basename $dir) check=$prop tier=$tier exit=$rc  $(grep -c '^VIOLATION' /verif/.scratch/seedtest_$(basename $dir)_$prop.log) violation line(s): $(grep -A1 '^VIOLATION' /verif/.scratch/seedtest_$(basename $dir)_$prop.log | grep key= | head -3 | tr '\n' ' ')"
